@@ -259,3 +259,66 @@ Proof.
     [|exact Ha].
   exists []. rewrite app_nil_r. repeat split. exact Hf.
 Qed.
+
+(** the script: run_script restores the caller's flag *)
+Theorem andor_trace_script : forall ext file_text n fuel path text defs text_new rt lines w e' tr st,
+  file_text path = Some text -> function_table text = (defs, text_new) ->
+  tab_okw (set_funcs defs (s_funcs w)) rt ->
+  flat_parsed text_new lines -> forallb wf_line lines = true ->
+  alines (rpipe ext rt fuel) lines (Some (s_eoe w, [])) 0%Z = (Some (e', tr), st) ->
+  run_script ext file_text n (S fuel) w path =
+    (mk_shs (s_eoe w) (set_funcs defs (s_funcs w)) (s_log w ++ tr), st).
+Proof.
+  intros ext file_text n fuel path text defs text_new rt lines w e' tr st Hfile Hft Htab Hpar Hok Ha.
+  rewrite run_script_S, Hfile, Hft. cbv zeta.
+  change (run_line_of shs (exec_pipe ext file_text n fuel)) with (exec_line ext file_text n fuel).
+  destruct (andor_trace_lines ext file_text n (set_funcs defs (s_funcs w)) rt Htab fuel text_new lines
+              (mk_shs (s_eoe w) (set_funcs defs (s_funcs w)) (s_log w)) e' tr st Hpar Hok eq_refl Ha) as [sts [H1 H2]].
+  rewrite H1. cbn [s_funcs s_log]. rewrite H2. reflexivity.
+Qed.
+
+(** on lines that are single pipelines (here and in every body) the and-or reference is the flag-state reference *)
+Section AlinesRefl.
+Variable ext : str -> Z.
+Variable rt : list (str * list str).
+Hypothesis Hrt : forall name body, get_body name rt = Some body -> forallb single_pipe body = true.
+
+Lemma alines_refl : forall fuel ls e last e' tr st, forallb single_pipe ls = true ->
+  refl ext rt fuel ls e last = Some (e', tr, st) ->
+  forall tr0, alines (rpipe ext rt fuel) ls (Some (e, tr0)) last = (Some (e', (tr0 ++ tr)%list), st).
+Proof.
+  induction fuel as [|f IHf]; [discriminate|].
+  induction ls as [|l r IHr]; intros e last e' tr st Hs H tr0.
+  - cbn in H. injection H as <- <- <-. cbn [alines]. rewrite app_nil_r. reflexivity.
+  - cbn [forallb] in Hs. apply andb_prop in Hs as [Hl Hr].
+    change (refl ext rt (S f) (l :: r) e last) with (ref_lines ext rt (fun b e => refl ext rt f b e 0%Z) (l :: r) e last) in H.
+    cbn [ref_lines] in H.
+    change (ref_lines ext rt (fun b e => refl ext rt f b e 0%Z) r) with (refl ext rt (S f) r) in H.
+    cbn [alines]. rewrite (run_line_single rst _ (Some (e, tr0)) l Hl).
+    assert (E : rpipe ext rt (S f) (Some (e, tr0)) l =
+                match classify2 rt l with
+                | QNop => (Some (e, tr0), 0%Z)
+                | QSetE => (Some (true, tr0), 0%Z)
+                | QSource => (None, 0%Z)
+                | QCall body => alines (rpipe ext rt f) body (Some (e, tr0)) 0%Z
+                | QExt => (Some (e, (tr0 ++ [l])%list), ext l)
+                end) by reflexivity.
+    rewrite E. clear E.
+    unfold classify2 in *.
+    destruct (cmd_words l) as [|cmd args].
+    { cbn [fst snd last_or_zero Z.eqb negb]. rewrite andb_false_r. exact (IHr _ _ _ _ _ Hr H tr0). }
+    destruct (str_eqb cmd [115; 101; 116] && match args with [a] => str_eqb a [45; 101] | _ => false end).
+    { cbn [fst snd last_or_zero Z.eqb negb andb]. exact (IHr _ _ _ _ _ Hr H tr0). }
+    destruct (str_eqb cmd s_source); [discriminate H|].
+    destruct (get_body cmd rt) as [body|] eqn:Gb.
+    + destruct (refl ext rt f body e 0%Z) as [[[e1 tr1] st1]|] eqn:B; [|discriminate H].
+      rewrite (IHf body e 0%Z e1 tr1 st1 (Hrt cmd body Gb) B tr0). cbn [fst snd last_or_zero].
+      destruct (e1 && negb (Z.eqb st1 0)); [injection H as <- <- <-; reflexivity|].
+      destruct (refl ext rt (S f) r e1 st1) as [[[e2 tr2] st2]|] eqn:R; [|discriminate H].
+      injection H as <- <- <-. rewrite (IHr _ _ _ _ _ Hr R (tr0 ++ tr1)%list), <- app_assoc. reflexivity.
+    + cbn [fst snd last_or_zero].
+      destruct (e && negb (Z.eqb (ext l) 0)); [injection H as <- <- <-; reflexivity|].
+      destruct (refl ext rt (S f) r e (ext l)) as [[[e2 tr2] st2]|] eqn:R; [|discriminate H].
+      injection H as <- <- <-. rewrite (IHr _ _ _ _ _ Hr R (tr0 ++ [l])%list), <- app_assoc. reflexivity.
+Qed.
+End AlinesRefl.
